@@ -142,6 +142,14 @@ def _decode_transitions(ctx):
 def _fail_closed(ctx, ts):
     """a failing decoder / validator / variable callback ends the command with ERROR before any handler;
     the write handler is reached only after a complete, successful decode"""
+    # validators: the direct callees that store a parsed number into variable storage (they report failure with
+    # any non-zero value; the decoders report it with a negative one)
+    byte_dec = _byte_decoders(ts)
+    validators = set()
+    for t in ts:
+        for e in t.events:
+            if e['k'] == 'wr' and e['region'][0] == 'vdata' and e['fn'] not in byte_dec and len(e['stack']) == 3:
+                validators.add(e['fn'])
     for t in ts:
         # int-returning direct callees of the handler: decoders and validators
         handler = None
@@ -153,7 +161,7 @@ def _fail_closed(ctx, ts):
         for e in rets:
             r = e['ret']
             lo, hi = t.raw.facts.lower(r), t.raw.facts.upper(r)
-            if hi < 0 or (e['name'].startswith('validate') and lo > 0):
+            if hi < 0 or (e['name'] in validators and (lo > 0 or hi < 0)):
                 failed = True
         for e in t.evs('cb'):
             if e['kind'] == 'var.write' and t.raw.facts.eq(e['ret'], 0) is False:
@@ -275,9 +283,10 @@ def c04(ctx):
     SIGNED_TYPES = {E['CAT_VAR_INT_DEC']}
     UNSIGNED_TYPES = {E['CAT_VAR_UINT_DEC'], E['CAT_VAR_NUM_HEX']}
     table = {}
+    bdec = _byte_decoders(ts)
     for t in ts:
         for e in t.events:
-            if e['k'] != 'wr' or e['region'][0] != 'vdata' or 'val_range' not in e or not e.get('itype') or e['fn'] in _byte_decoders(ts):
+            if e['k'] != 'wr' or e['region'][0] != 'vdata' or 'val_range' not in e or not e.get('itype') or e['fn'] in bdec:
                 continue
             bits, sg = e['itype']
             e['qt'] = '%sint%d_t' % ('' if sg else 'u', bits)
